@@ -1,7 +1,7 @@
 (* Entry points of the executable model, by name.  Used both by the extracted
    OCaml driver and by vm_compute in generated cases files. *)
 From Coq Require Import ZArith QArith List String Bool.
-From SKC Require Import Model.Val Base.QBool Base.QList Base.QRank Model.Dominance Model.Agg Model.Electre Model.Result Model.Select Model.Transform Model.Weights Model.Filters Model.Untie Model.Diff.
+From SKC Require Import Model.Val Base.QBool Base.QList Base.QRank Model.Dominance Model.Agg Model.Electre Model.Result Model.Select Model.Transform Model.Weights Model.Filters Model.Untie Model.Diff Model.Pipeline.
 Import ListNotations.
 Local Open Scope string_scope.
 
@@ -249,6 +249,11 @@ Definition run_diff (a : Q * Q * bool * obj * obj) : val :=
   VL [eB (fst d); eL (fun m => eZ (member_code m)) (snd d);
       eB (equals x y); eB (neb x y); eB (aequals {| rtol := rt; atol := at_ |} x y)].
 
+(* ---- C16: unique step names, parameter round trip ------------------------------------------- *)
+Definition run_unique_names (ns : list (list Z)) : val := eL (eL eZ) (unique_names ns).
+Definition run_copy_with (a : list (Z * Z) * list (Z * Z)) : val :=
+  eL (fun kv => VL [eZ (fst kv); eZ (snd kv)]) (copy_with (fst a) (snd a)).
+
 Definition dispatch (fn : string) (arg : val) : val :=
   if fn =? "dominance" then with_arg (dP2 (dL dB) dMatrix) run_dominance arg
   else if fn =? "rank" then with_arg (dP2 dB (dL dQ)) run_rank arg
@@ -268,6 +273,8 @@ Definition dispatch (fn : string) (arg : val) : val :=
   else if fn =? "untie" then with_arg (dL dN) run_untie arg
   else if fn =? "cmp" then with_arg (dP2 (dL dZ) (dL (dL (dP2 dZ dN)))) run_cmp arg
   else if fn =? "diff" then with_arg (dP5 dQ dQ dB dObj dObj) run_diff arg
+  else if fn =? "unique_names" then with_arg (dL (dL dZ)) run_unique_names arg
+  else if fn =? "copy_with" then with_arg (dP2 (dL (dP2 dZ dZ)) (dL (dP2 dZ dZ))) run_copy_with arg
   else if fn =? "wsm" then with_arg dDM run_wsm arg
   else if fn =? "ratio" then with_arg dDM run_ratio arg
   else if fn =? "refpoint" then with_arg dDM run_refpoint arg
